@@ -38,3 +38,26 @@ fn fresh_label_increasing() {
     assert!(b == a + 1 && c == b + 1 && d == c + 1);
     assert!(a >= 1);
 }
+
+/// A-LBL, inductive step: the text of the REAL lang/axcut2backend/src/fresh_labels.rs (copied on every
+/// run by the check, dropping only its `//!` module doc lines) is included here so that the harness can
+/// start from an ARBITRARY counter value: one call returns old + 1 and stores it.  Together with the
+/// initial value 0 this is a complete proof (no bound on the number of calls) that successive labels are
+/// strictly increasing, hence pairwise distinct, as long as the counter does not wrap (2^64 calls).
+#[cfg(kani)]
+mod fresh_labels_extracted_harness {
+    include!("fresh_labels_extracted.rs");
+
+    #[kani::proof]
+    fn fresh_label_inductive() {
+        let v: usize = kani::any();
+        kani::assume(v < usize::MAX);
+        unsafe {
+            COUNTER = v;
+        }
+        let a = fresh_label();
+        assert!(a == v + 1);
+        let c = unsafe { COUNTER };
+        assert!(c == v + 1);
+    }
+}
